@@ -234,7 +234,9 @@ func c18RunSign(sc c18SignCase, layout []obs.Bip32Field) (res c18SignResult) {
 			// the offset and the child key from the real derivation
 			var child *ckd.ExtendedKey
 			var derr error
-			pan := c18Call(func() { delta, child, derr = ckd.DeriveChildKeyFromHierarchy(ss.Path, c18Lib(rootInd, ec), ec.Params().N, ec) })
+			pan := c18Call(func() {
+				delta, child, derr = ckd.DeriveChildKeyFromHierarchy(ss.Path, c18Lib(rootInd, ec), ec.Params().N, ec)
+			})
 			if pan != "" || derr != nil || delta == nil || child == nil {
 				viol("C18:DeriveChildKeyFromHierarchy:refuses-valid-path:secp256k1", fmt.Sprintf("%s: derivation from the group key failed: err=%v panic=%q", where, derr, core.Short(pan, 200)))
 				return
@@ -260,7 +262,9 @@ func c18RunSign(sc c18SignCase, layout []obs.Bip32Field) (res c18SignResult) {
 				return
 			}
 			var uerr error
-			pan = c18Call(func() { uerr = ecsg.UpdatePublicKeyAndAdjustBigXj(delta, keys, &ecdsa.PublicKey{Curve: ec, X: child.X, Y: child.Y}, ec) })
+			pan = c18Call(func() {
+				uerr = ecsg.UpdatePublicKeyAndAdjustBigXj(delta, keys, &ecdsa.PublicKey{Curve: ec, X: child.X, Y: child.Y}, ec)
+			})
 			if pan != "" || uerr != nil {
 				viol("C18:sign:UpdatePublicKeyAndAdjustBigXj:fails", fmt.Sprintf("%s: adjusting the copies failed: err=%v panic=%q", where, uerr, core.Short(pan, 200)))
 				return
